@@ -17,7 +17,7 @@ import (
 // (one instance replaced by a variant of itself) at one position; all positions are
 // enumerated. The oracles are those of the property the documents are given to.
 
-var longKinds = []string{"none", "key", "key-same", "bpm", "meter", "vel", "txt", "long-rest", "tiny", "symbol", "degree", "bass", "two-values", "to-rest", "to-chord"}
+var longKinds = []string{"none", "key", "key-same", "bpm", "meter", "vel", "txt", "lic-only", "free-meta", "long-rest", "tiny", "symbol", "degree", "bass", "two-values", "to-rest", "to-chord"}
 
 func longBase(i int) refplay.Inst {
 	switch i % 5 {
@@ -47,6 +47,10 @@ func longDeviate(in refplay.Inst, kind string) refplay.Inst {
 		in.Vel = sp("pp")
 	case "txt":
 		in.Meta = map[string]string{"txt": "x é"}
+	case "lic-only":
+		in.Meta = map[string]string{"lic": "la"}
+	case "free-meta":
+		in.Meta = map[string]string{"sec": "A", "foo": "bar"}
 	case "long-rest":
 		in.Chord = nil
 		in.Values = []timing.Frac{{Num: 700, Den: 1}}
